@@ -62,6 +62,8 @@ structure DistInfo where
   n : Nat
   self : Option Nat
   active : List (String × List Nat)
+  /-- number of shards that returned at least one row (from the run's own report; 0 when the run failed) -/
+  nonEmpty : Nat := 0
 
 def distInfoOfJson (j : Json) : DistInfo :=
   let shape := (getStr j "shape").toOption.getD ""
@@ -71,7 +73,12 @@ def distInfoOfJson (j : Json) : DistInfo :=
   let active := match j.getObjVal? "active" with
     | .ok (.obj kv) => kv.toList.map fun (k, v) => (k, (asNatList v).toOption.getD [])
     | _ => []
-  { shape, tables, n, self, active }
+  let nonEmpty := match j.getObjValAs? (Array Json) "nodes" with
+    | .ok a => (a.toList.filter fun nd => match nd.getArr? with
+        | .ok f => (match f[3]? with | some r => (r.getNat?.toOption.getD 0) > 0 | none => false)
+        | .error _ => false).length
+    | .error _ => 0
+  { shape, tables, n, self, active, nonEmpty }
 
 def tableIndex (c : Case) (name : String) : Option Nat :=
   match c.raw.getObjValAs? (Array Json) "cat" with
@@ -301,7 +308,8 @@ def handler : Driver.Handler := fun cj i => do
     let act := d.active.map (·.2.length)
     [s!"shape:{if d.shape == "" then "none" else d.shape}", s!"n:{d.n}", (if d.self.isSome then "self" else "noself")] ++
     (if act.any (· < d.n) then ["idle_node"] else []) ++ (if act.any (· ≥ 2) then ["multi_shard"] else []) ++
-    (if act.any (· == 0) then ["no_active_shard"] else [])
+    (if act.any (· == 0) then ["no_active_shard"] else []) ++
+    (if d.nonEmpty ≥ 2 then ["nonempty_shards:2+"] ++ (c.tags.filter (·.startsWith "tail:")).map (· ++ ":multi") else [])
   -- how exactly do the deviation switches mirror the code?  (hit = predicted and observed, miss = observed only, spurious = predicted only)
   let devTags := dists.flatMap fun (k, o, m) =>
     let d := infoOf k
